@@ -15,7 +15,7 @@ func init() {
 		ID:          "C04",
 		Explanation: "(R4.1) auxiliary relaxation variables never leak: on every path of every Interface.Optimal wrapper outside package solver, a result obtained from the inner solver leaves the method (return or send) only after its Model was cut at the first relaxation variable, unless its status was tested not to be Sat; (R4.2) in maxsat.New, on every path on which a constraint is soft, the blocking literal is appended and gets a coefficient equal to the constraint's degree (implicit unit coefficients are only kept when the degree is 1); (R4.3) Problem.Solve inserts a binding into the returned model only for named variables.",
 		NotDecided:  "minimality of the reported cost, the WCNF top-weight semantics on concrete values, and variable renumbering.",
-		Rules:       []ruleFn{ruleR4_1, ruleR4_2, ruleR4_3, ruleR4_4, ruleR4_5, ruleR4_6, ruleR4_7, ruleR13_8, ruleR13_6, ruleR3_5, ruleR9_4, ruleR9_5, ruleR9_6, ruleR2_9, ruleR9_7, ruleR20_1_2},
+		Rules:       []ruleFn{ruleR4_1, ruleR4_2, ruleR4_3, ruleR4_4, ruleR4_5, ruleR4_6, ruleR4_7, ruleR13_8, ruleR13_6, ruleR3_5, ruleR9_4, ruleR9_5, ruleR9_6, ruleR2_9, ruleR9_7, ruleR20_1_2, ruleR4_8, ruleR4_9, ruleR2_2},
 	})
 }
 
